@@ -334,6 +334,32 @@ Proof.
   intros Hne cls. destruct seqs as [|s0 seqs]; [congruence|].
   unfold one_hot_multi, one_hot. fold cls. f_equal. apply np_split_cumsum.
 Qed.
+
+(* 2-D label arrays *)
+Lemma reshape_rows_map {B} (g : A -> B) (m : nat) : forall (rows : list (list A)),
+  Forall (fun r => length r = m) rows ->
+  reshape_rows (length rows) m (map g (concat rows)) = map (map g) rows.
+Proof.
+  induction rows as [|r rows IH]; intros Hf; [reflexivity|].
+  inversion Hf as [|? ? Hr Hf']; subst. cbn [length reshape_rows concat map]. rewrite map_app.
+  rewrite firstn_app, firstn_all2 by (rewrite map_length; lia).
+  rewrite map_length, Nat.sub_diag. cbn [firstn]. rewrite app_nil_r.
+  rewrite skipn_app, skipn_all2 by (rewrite map_length; lia).
+  rewrite map_length, Nat.sub_diag. cbn [skipn app]. rewrite IH by exact Hf'. reflexivity.
+Qed.
+
+Theorem one_hot_2d_spec (rows : list (list A)) (m : nat) : rows <> [] ->
+  Forall (fun r => length r = m) rows ->
+  let cls := unique leb (concat rows) in
+  one_hot_2d (F:=F) leb rows =
+    if m =? 1 then (inl (map (encode_with leb cls) (concat rows)), cls)
+    else (inr (map (map (encode_with leb cls)) rows), cls).
+Proof.
+  intros Hne Hf cls. unfold one_hot_2d, one_hot. fold cls.
+  assert (Hm : length (hd [] rows) = m).
+  { destruct rows as [|r rows]; [congruence|]. inversion Hf; assumption. }
+  rewrite Hm. destruct (m =? 1); [reflexivity|]. rewrite reshape_rows_map by exact Hf. reflexivity.
+Qed.
 End OneHot.
 
 (* the integer instance *)
@@ -343,6 +369,23 @@ Lemma Zleb_trans a b c : Z.leb a b = true -> Z.leb b c = true -> Z.leb a c = tru
 Proof. rewrite !Z.leb_le. lia. Qed.
 Lemma Zleb_antisym a b : Z.leb a b = true -> Z.leb b a = true -> a = b.
 Proof. rewrite !Z.leb_le. lia. Qed.
+
+Lemma ssorted_impl {A} (P Q : A -> A -> Prop) (l : list A) :
+  (forall a b, P a b -> Q a b) -> StronglySorted P l -> StronglySorted Q l.
+Proof. intros HPQ. induction 1 as [|a l Hs IH Hf]; constructor; auto. eapply Forall_impl; [|exact Hf]. auto. Qed.
+
+Theorem one_hot_spec_Z {F : Type} `{Num F} (labels : list Z) (d : Z) :
+  let enc := fst (one_hot (F:=F) Z.leb labels) in let cls := snd (one_hot (F:=F) Z.leb labels) in
+  StronglySorted (fun a b => (a < b)%Z) cls /\ NoDup cls /\ (forall x, In x cls <-> In x labels) /\
+  length enc = length labels /\
+  forall i, i < length labels ->
+    exists idx, idx < length cls /\ nth idx cls d = nth i labels d /\
+      length (nth i enc []) = length cls /\
+      forall j, nth j (nth i enc []) n0 = if j =? idx then n1 else n0.
+Proof.
+  destruct (one_hot_spec (F:=F) Z.leb Zleb_total Zleb_trans Zleb_antisym labels d) as (H1 & H2).
+  split; [|exact H2]. eapply ssorted_impl; [|exact H1]. unfold llt. intros a b E. apply Z.leb_gt in E. exact E.
+Qed.
 
 (* ------------------------------------------------------------------ logistic / Henon *)
 Section Orbit.
@@ -368,12 +411,20 @@ Theorem logistic_spec (n : nat) (r x0 : F) (rows : list (list F)) :
   forall i, S i < n -> exists x, nth i rows [] = [x] /\ nth (S i) rows [] = [nmul (nmul r x) (nsub n1 x)].
 Proof.
   unfold logistic_map. destruct (_ && _); [|discriminate]. destruct n as [|n]; [discriminate|].
-  intros E. injection E as <-. split; [rewrite map_length; apply orbit_length|]. split; [reflexivity|].
+  intros E. assert (E' : map (fun x : F => [x]) (orbit (logistic_step r) (S n) x0) = rows) by congruence.
+  clear E. subst rows. split; [rewrite map_length; apply orbit_length|]. split; [reflexivity|].
   intros i Hi. exists (nth i (orbit (logistic_step r) (S n) x0) n0).
   assert (E : forall k, k < S n -> nth k (map (fun x : F => [x]) (orbit (logistic_step r) (S n) x0)) [] = [nth k (orbit (logistic_step r) (S n) x0) n0]).
   { intros k Hk. rewrite nth_indep with (d' := (fun x : F => [x]) n0) by (rewrite map_length, orbit_length; exact Hk).
     apply (map_nth (fun x : F => [x])). }
   rewrite !E by lia. split; [reflexivity|]. rewrite orbit_succ by exact Hi. reflexivity.
+Qed.
+
+Theorem logistic_defined (n : nat) (r x0 : F) :
+  1 <= n -> nltb n0 r = true -> nltb n0 x0 = true -> nltb x0 n1 = true -> exists rows, logistic_map n r x0 = Some rows.
+Proof.
+  intros Hn E1 E2 E3. unfold logistic_map. rewrite E1, E2, E3. cbn [andb].
+  destruct n as [|n]; [lia|]. eexists. reflexivity.
 Qed.
 
 Theorem henon_spec (n : nat) (a b x0 y0 : F) (rows : list (list F)) :
@@ -383,7 +434,8 @@ Theorem henon_spec (n : nat) (a b x0 y0 : F) (rows : list (list F)) :
     nth (S i) rows [] = [nadd (nsub n1 (nmul a (nmul x x))) y; nmul b x].
 Proof.
   unfold henon_map. destruct n as [|n]; [discriminate|].
-  intros E. injection E as <-. split; [rewrite map_length; apply orbit_length|]. split; [reflexivity|].
+  intros E. assert (E' : map (fun s : F * F => [fst s; snd s]) (orbit (henon_step a b) (S n) (x0, y0)) = rows) by congruence.
+  clear E. subst rows. split; [rewrite map_length; apply orbit_length|]. split; [reflexivity|].
   intros i Hi. set (o := orbit (henon_step a b) (S n) (x0, y0)).
   exists (fst (nth i o (n0, n0))), (snd (nth i o (n0, n0))).
   assert (E : forall k, k < S n -> nth k (map (fun s : F * F => [fst s; snd s]) o) [] = [fst (nth k o (n0, n0)); snd (nth k o (n0, n0))]).
@@ -414,10 +466,10 @@ Definition window (y : list F) (t : nat) : list F := map (fun j => nth j y n0) (
 Definition narma_holds (y : list F) (t : nat) : Prop :=
   nth (t + 1) y n0 = narma_rhs a1 a2 b c (nth t y n0) (vsum (window y t)) (nth (t + 1 - order) u n0) (nth t u n0).
 
-Lemma window_agree (y y' : list F) t : (forall j, j <= t -> nth j y' n0 = nth j y n0) -> window y' t = window y t.
+Lemma window_agree (y y' : list F) t : order <= t ->
+  (forall j, j <= t -> nth j y' n0 = nth j y n0) -> window y' t = window y t.
 Proof.
-  intros Hj. unfold window. apply map_ext_in. intros j Hin. apply in_seq in Hin.
-  destruct order as [|o]; [lia|]. apply Hj. lia.
+  intros Ho Hj. unfold window. apply map_ext_in. intros j Hin. apply in_seq in Hin. apply Hj. lia.
 Qed.
 
 Lemma narma_loop (m : nat) : forall (s : nat) (y : list F), order <= s -> s + m < length y ->
@@ -438,9 +490,9 @@ Proof.
     + intros t Ht. destruct (Nat.eq_dec t s) as [->|Hne]; [|apply Hrec; lia].
       unfold narma_holds.
       assert (Hall : forall j, j <= s -> nth j y' n0 = nth j y n0) by (intros j Hj; rewrite Hpre by lia; apply O1; exact Hj).
-      rewrite (window_agree y y' s Hall). rewrite (Hall s (le_n s)).
+      rewrite (window_agree y y' s Hs Hall). rewrite (Hall s (le_n s)).
       rewrite Hpre by lia. subst y1. unfold narma_body. rewrite upd_nth_same by lia.
-      f_equal. f_equal. unfold window. symmetry. apply firstn_skipn_seq. lia.
+      f_equal. f_equal. unfold window. apply firstn_skipn_seq. lia.
 Qed.
 
 Theorem narma_spec (n : nat) (x0 : list F) : length x0 <= n + order ->
@@ -465,3 +517,102 @@ Proof.
   split; [reflexivity|]. unfold narma. fold y. rewrite map_length, skipn_length, H1. lia.
 Qed.
 End Maps.
+
+(* ------------------------------------------------------------------ string labels: String.leb is a total order *)
+Lemma ascii_compare_N (a b : Ascii.ascii) : Ascii.compare a b = N.compare (Ascii.N_of_ascii a) (Ascii.N_of_ascii b).
+Proof. reflexivity. Qed.
+
+Lemma ascii_compare_eq (a b : Ascii.ascii) : Ascii.compare a b = Eq -> a = b.
+Proof.
+  rewrite ascii_compare_N. intros E. apply N.compare_eq in E.
+  rewrite <- (Ascii.ascii_N_embedding a), <- (Ascii.ascii_N_embedding b), E. reflexivity.
+Qed.
+
+Lemma string_leb_trans : forall a b c : String.string,
+  String.leb a b = true -> String.leb b c = true -> String.leb a c = true.
+Proof.
+  unfold String.leb.
+  induction a as [|x a IH]; intros [|y b] [|z c]; cbn; try reflexivity; try discriminate.
+  rewrite !ascii_compare_N.
+  destruct (N.compare_spec (Ascii.N_of_ascii x) (Ascii.N_of_ascii y)) as [E1|E1|E1]; try discriminate.
+  - rewrite E1. destruct (N.compare_spec (Ascii.N_of_ascii y) (Ascii.N_of_ascii z)); try discriminate; try reflexivity.
+    apply IH.
+  - destruct (N.compare_spec (Ascii.N_of_ascii y) (Ascii.N_of_ascii z)) as [E2|E2|E2]; try discriminate; intros _ _.
+    + rewrite <- E2. apply N.compare_lt_iff in E1. rewrite E1. reflexivity.
+    + assert (E3 : (Ascii.N_of_ascii x < Ascii.N_of_ascii z)%N) by lia.
+      apply N.compare_lt_iff in E3. rewrite E3. reflexivity.
+Qed.
+
+(* ------------------------------------------------------------------ NARMA: the documented form, over R; the pre-fix loop *)
+From Coq Require Import Reals Lra.
+From RV Require Import base.BSum.
+Close Scope R_scope.
+
+Lemma vsum_seq_bsum (g : nat -> R) : forall k s,
+  vsum (map g (seq s k)) = bsum k (fun i => g (s + k - 1 - i)).
+Proof.
+  induction k as [|k IH]; intros s; [reflexivity|].
+  cbn [seq map vsum bsum]. rewrite IH. numR.
+  replace (s + S k - 1 - k) with s by lia.
+  rewrite (bsum_ext k (fun i => g (S s + k - 1 - i)) (fun i => g (s + S k - 1 - i)))
+    by (intros i Hi; f_equal; lia).
+  lra.
+Qed.
+
+(* y[t+1] = a1 y[t] + a2 y[t] sum_{i<order} y[t-i] + b u[t-(order-1)] u[t] + c *)
+Definition narma_documented (order : nat) (a1 a2 b c : R) (u y : list R) (t : nat) : Prop :=
+  (nth (t + 1) y 0 = a1 * nth t y 0 + a2 * nth t y 0 * bsum order (fun i => nth (t - i) y 0)
+                     + b * nth (t - (order - 1)) u 0 * nth t u 0 + c)%R.
+
+Lemma narma_holds_documented (order : nat) (a1 a2 b c : R) (u y : list R) (t : nat) :
+  1 <= order -> order <= t -> narma_holds order a1 a2 b c u y t -> narma_documented order a1 a2 b c u y t.
+Proof.
+  intros Ho Ht Hh. unfold narma_holds, narma_rhs, window in Hh. unfold narma_documented.
+  numR. rewrite Hh. rewrite vsum_seq_bsum.
+  rewrite (bsum_ext order (fun i => nth (t + 1 - order + order - 1 - i) y 0%R) (fun i => nth (t - i) y 0%R))
+    by (intros i Hi; f_equal; lia).
+  replace (t + 1 - order) with (t - (order - 1)) by lia. ring.
+Qed.
+
+Theorem narma_documented_spec (n order : nat) (a1 a2 b c : R) (x0 u : list R) :
+  1 <= order -> length x0 <= n + order ->
+  let y := narma_array n order a1 a2 b c x0 u in
+  length y = n + order /\
+  (forall j, j <= order -> nth j y 0%R = nth j (x0 ++ repeat 0%R (n + order - length x0)) 0%R) /\
+  (forall t, order <= t < n + order - 1 -> narma_documented order a1 a2 b c u y t) /\
+  length (narma n order a1 a2 b c x0 u) = n /\
+  forall k, k < n -> nth k (narma n order a1 a2 b c x0 u) [] = [nth (order + k) y 0%R].
+Proof.
+  intros Ho Hx y. destruct (narma_spec order a1 a2 b c u n x0 Hx) as (H1 & H2 & H3 & H4 & H5). fold y in H1, H2, H3, H4.
+  split; [exact H1|]. split; [exact H2|].
+  split; [intros t Ht; apply narma_holds_documented; [exact Ho|lia|apply H3; exact Ht]|].
+  split; [exact H5|]. intros k Hk. rewrite H4.
+  rewrite nth_indep with (d' := (fun v : R => [v]) 0%R) by (rewrite map_length, skipn_length; lia).
+  rewrite (map_nth (fun v : R => [v])). rewrite nth_skipn_add. reflexivity.
+Qed.
+
+(* the loop as it was before commit b06336b (window y[t-order..t-1], u[t-order]) does not satisfy the recurrence *)
+Open Scope Q_scope.
+Definition narma_holds_Q (order : nat) (a1 a2 b c : Q) (u y : list Q) (t : nat) : bool :=
+  Qeq_bool (nth (t + 1) y 0)
+           (narma_rhs a1 a2 b c (nth t y 0) (vsum (window order y t)) (nth (t + 1 - order) u 0) (nth t u 0)).
+Lemma narma_old_witness :
+  let n := 4%nat in let order := 2%nat in
+  let x0 := [1#2; 1#4; 1#2] in let u := [1#8; 1#4; 1#2; 1#4; 1#8; 1#2] in
+  let y := narma_array_old (F:=Q) n order (1#4) (1#4) 1 (1#8) x0 u in
+  narma_holds_Q order (1#4) (1#4) 1 (1#8) u y 3 = false /\
+  (* the same input on the current loop satisfies it at every step *)
+  forallb (narma_holds_Q order (1#4) (1#4) 1 (1#8) u (narma_array (F:=Q) n order (1#4) (1#4) 1 (1#8) x0 u)) [2;3;4]%nat = true.
+Proof. vm_compute. split; reflexivity. Qed.
+Theorem narma_old_refuted :
+  exists (n order : nat) (a1 a2 b c : Q) (x0 u : list Q) (t : nat),
+    (1 <= order)%nat /\ (length x0 <= n + order)%nat /\ (order <= t < n + order - 1)%nat /\
+    let y := narma_array_old (F:=Q) n order a1 a2 b c x0 u in
+    Qeq_bool (nth (t + 1) y 0)
+             (narma_rhs a1 a2 b c (nth t y 0) (vsum (map (fun j => nth j y 0) (seq (t + 1 - order) order)))
+                        (nth (t + 1 - order) u 0) (nth t u 0)) = false.
+Proof.
+  exists 4%nat, 2%nat, (1#4), (1#4), 1, (1#8), [1#2; 1#4; 1#2], [1#8; 1#4; 1#2; 1#4; 1#8; 1#2], 3%nat.
+  split; [lia|]. split; [cbn; lia|]. split; [lia|]. vm_compute. reflexivity.
+Qed.
+Close Scope Q_scope.
